@@ -10,8 +10,9 @@ import BluetoeModel.AttAccess.Safety
   contract, every non-empty PDU and every output buffer of at least 23 bytes — and that this
   precondition is exact (`step_assert_iff`).
 
-  The well-formedness predicates are decidable (`Bool`) and are what the C++ type system
-  guarantees by construction:
+  The well-formedness predicates (`TableWF`, `StateWF`, Model.lean) are decidable (`Bool`) and are
+  what the C++ type system guarantees by construction (the driver evaluates them on every table
+  dumped from the real templates and on every initial state):
   * `TableWF`: `max_mtu_size ≥ 23`; an attribute whose 16 bit type is `internal_128bit_uuid`
     directly follows a characteristic declaration holding a 16 byte UUID
     (characteristic.hpp: only `characteristic_value_declaration_parameter` yields that type);
@@ -32,37 +33,6 @@ structure HandlersOk (H : Handlers) : Prop where
   readPlain : ∀ cell cells n, (H.readPlain cell cells n).1 = 0 → (H.readPlain cell cells n).2.length ≤ n
   writeBlob : ∀ cell cells off v, (H.writeBlob cell cells off v).2.map List.length = cells.map List.length
   writePlain : ∀ cell cells v, (H.writePlain cell cells v).2.map List.length = cells.map List.length
-
-/-- attribute `idx` of the table is well-formed w.r.t. the table -/
-def attrTableOk (srv : Server) (idx : Nat) (a : Attr) : Bool :=
-  if a.uuid = 1 then
-    decide (1 ≤ idx) &&
-      (match srv.attrs[idx - 1]? with
-       | some ⟨_, .charDecl uuid _ _ _ _, _, _⟩ => decide (uuid.length = 16)
-       | _ => false)
-  else true
-
-/-- well-formed table (decidable) -/
-def TableWF (srv : Server) : Bool :=
-  decide (23 ≤ srv.mtu) &&
-  (List.range srv.attrs.length).all (fun i => match srv.attrs[i]? with
-    | some a => attrTableOk srv i a
-    | none => true) &&
-  srv.ntf.all (fun i => decide (i < srv.attrs.length))
-
-/-- the memory behind attribute `a` exists: `lens` = sizes of the memory cells, `ncccd` = number of
-    CCCD entries of the connection -/
-def attrStateOk (lens : List Nat) (ncccd : Nat) (a : Attr) : Bool :=
-  match a.kind with
-  | .bound cell size _ _ => (match lens[cell]? with
-      | some n => decide (size ≤ n)
-      | none => false)
-  | .cccd pos => decide (pos < ncccd)
-  | _ => true
-
-/-- well-formed state (decidable); depends on the memory only through the sizes of the cells -/
-def StateWF (srv : Server) (cells : List Bytes) (c : Conn) : Bool :=
-  srv.attrs.all (attrStateOk (cells.map List.length) c.cccd.length) && decide (srv.ntf.length ≤ c.cccd.length)
 
 /-- neither a write outside a buffer / value nor an `assert` -/
 def Safe (r : Resp) : Prop := r ≠ .oobWrite ∧ r ≠ .assertFail
@@ -212,7 +182,7 @@ theorem readAccess_ok (H : Handlers) (hH : HandlersOk H) (srv : Server) (cells :
     · split
       · intro h; cases h
       · exact readMem_ok _ _ _ _ (Nat.le_refl _)
-  | cstring val =>
+  | cstring val nr =>
     dsimp only
     split
     · intro h; cases h
@@ -308,12 +278,18 @@ theorem writeAccess_ok (H : Handlers) (srv : Server) (cells : List Bytes) (c : C
     all_goals (intro h; cases h; done)
   | service _ _ => intro h; cases h
   | charDecl _ _ _ _ _ => intro h; cases h
-  | fixed _ _ => dsimp only; repeat' split
-                 all_goals (intro h; cases h; done)
-  | cstring _ => dsimp only; repeat' split
-                 all_goals (intro h; cases h; done)
-  | userDesc _ => dsimp only; repeat' split
-                  all_goals (intro h; cases h; done)
+  | fixed _ _ =>
+    dsimp only
+    repeat' split
+    all_goals (intro h; cases h; done)
+  | cstring _ _ =>
+    dsimp only
+    repeat' split
+    all_goals (intro h; cases h; done)
+  | userDesc _ =>
+    dsimp only
+    repeat' split
+    all_goals (intro h; cases h; done)
   | descriptor _ => intro h; cases h
 
 theorem writeAccess_lens (H : Handlers) (hH : HandlersOk H) (srv : Server) (cells : List Bytes) (c : Conn) (a : Attr)
@@ -354,12 +330,18 @@ theorem writeAccess_lens (H : Handlers) (hH : HandlersOk H) (srv : Server) (cell
       | exact ⟨hH.writeBlob _ _ _ _, rfl⟩
   | service _ _ => exact ⟨rfl, rfl⟩
   | charDecl _ _ _ _ _ => exact ⟨rfl, rfl⟩
-  | fixed _ _ => dsimp only; repeat' split
-                 all_goals exact ⟨rfl, rfl⟩
-  | cstring _ => dsimp only; repeat' split
-                 all_goals exact ⟨rfl, rfl⟩
-  | userDesc _ => dsimp only; repeat' split
-                  all_goals exact ⟨rfl, rfl⟩
+  | fixed _ _ =>
+    dsimp only
+    repeat' split
+    all_goals exact ⟨rfl, rfl⟩
+  | cstring _ _ =>
+    dsimp only
+    repeat' split
+    all_goals exact ⟨rfl, rfl⟩
+  | userDesc _ =>
+    dsimp only
+    repeat' split
+    all_goals exact ⟨rfl, rfl⟩
   | descriptor _ => exact ⟨rfl, rfl⟩
 
 end BluetoeModel.AttAccess
